@@ -15,7 +15,8 @@
    the entry's": false after a truncation), [t_rc] handle index -> (the bytes the
    opener's file reads, its position).
 
-   WriteHeader is modelled for regular files (TypeReg) with a checksum record and no
+   WriteHeader is modelled for regular files (TypeReg) and symbolic links (TypeSymlink)
+   with a checksum record, directories (TypeDir) and hard links (TypeLink), no
    xattr records, all entries from packages of one origin with no `replaces`: a fresh
    name gets a node with the entry; an existing node with the same checksum (or, if it
    has no entry, with exactly these bytes in memory) is left alone ("not installed");
@@ -23,15 +24,19 @@
    existing node without entry and without data (a directory, a link, an empty file)
    or with other bytes is a conflict error.  Its results: ONum 1 = installed, ONum 0 =
    not installed.  The opener's files are the harness's: they read the entry's bytes
-   the way memFile reads data.  (TypeDir / TypeSymlink / TypeLink headers, conflicts
-   between packages: C06 / C07.) *)
+   the way memFile reads data.  (Conflicts between packages of different origins / with `replaces`: C07.) *)
 From Apko Require Export Model.MemFS.
 Open Scope string_scope. Open Scope list_scope.
 
 Record tst := mkT { t_base : st; t_te : list (nat * (list N * bool)); t_rc : list (nat * (list N * Z)) }.
 Definition tinit : tst := mkT init_st [] [].
 
-Inductive top := TOp (o : op) | TWriteHeader (p : path) (content : list N) (perm : N).
+Inductive top :=
+| TOp (o : op)
+| TWriteHeader (p : path) (content : list N) (perm : N)             (* tar.TypeReg *)
+| TWriteHeaderDir (p : path) (perm : N) (t : Z)                      (* tar.TypeDir, ModTime t *)
+| TWriteHeaderSym (p : path) (tgt : path) (cid : list N)             (* tar.TypeSymlink; [cid]: the bytes the checksum record is the SHA-1 of *)
+| TWriteHeaderLink (old new : path).                                 (* tar.TypeLink: Linkname, Name *)
 
 Fixpoint nlookup {A} (k : nat) (l : list (nat * A)) : option A :=
   match l with
@@ -128,15 +133,17 @@ Definition t_op (ts : tst) (o : op) : tst * out :=
   | _ => plain
   end.
 
-Definition t_writeheader (ts : tst) (p : path) (c : list N) (perm : N) : tst * out :=
+(* writeHeader(name, te): [n] the node a fresh name gets, [c] what the entry's checksum is of,
+   [live] whether te.header.Size is not 0 *)
+Definition t_wh (ts : tst) (p : path) (c : list N) (n : node) (live : bool) : tst * out :=
   let s := t_base ts in let h := heap s in
   match get_node TarFS h (go_dir p) with
   | inr e => (ts, OErr e)
   | inl pi =>
       if negb (is_dir h pi) then (ts, OErr EOther)
       else
-        let fresh := let '(h', i) := create h pi (go_base p) (empty_node KReg perm) in
-                     (mkT (seth s h') (nset i (c, true) (t_te ts)) (t_rc ts), ONum 1%Z) in
+        let fresh := let '(h', i) := create h pi (go_base p) n in
+                     (mkT (seth s h') (nset i (c, live) (t_te ts)) (t_rc ts), ONum 1%Z) in
         match lookup (go_base p) (n_children (get h pi)) with
         | None => fresh
         | Some x =>
@@ -150,11 +157,42 @@ Definition t_writeheader (ts : tst) (p : path) (c : list N) (perm : N) : tst * o
             end
         end
   end.
+Definition t_writeheader (ts : tst) (p : path) (c : list N) (perm : N) : tst * out :=
+  t_wh ts p c (empty_node KReg perm) true.
+
+(* tar.TypeSymlink: nothing to do when Readlink(name) already answers the target; otherwise
+   writeHeader with a link node (mode ModeSymlink|0777 from the header, Size 0: never "not loaded") *)
+Definition t_writeheader_sym (ts : tst) (p tgt : path) (cid : list N) : tst * out :=
+  match snd (model_step TarFS (t_base ts) (Readlink p)) with
+  | OPath t => if path_eqb t tgt then (ts, ONum 0%Z)
+               else t_wh ts p cid (mkNode KSym 511%N 0%Z 0%Z [] None tgt 0%N [] []) false
+  | _ => t_wh ts p cid (mkNode KSym 511%N 0%Z 0%Z [] None tgt 0%N [] []) false
+  end.
+
+(* tar.TypeDir: (the "existing symlink to a directory" test asks Stat, which follows the link, for
+   ModeSymlink: it never holds) MkdirAll, then Chtimes; the first error is returned, what MkdirAll
+   made stays *)
+Definition t_writeheader_dir (ts : tst) (p : path) (perm : N) (t : Z) : tst * out :=
+  let '(s1, r1) := model_step TarFS (t_base ts) (MkdirAll p perm) in
+  match r1 with
+  | OOk => let '(s2, r2) := model_step TarFS s1 (Chtimes p t) in
+           (mkT s2 (t_te ts) (t_rc ts), match r2 with OOk => ONum 1%Z | r => r end)
+  | r => (mkT s1 (t_te ts) (t_rc ts), r)
+  end.
+
+(* tar.TypeLink: m.link(Linkname, Name, &hdr) — Link, and the header is remembered in the target's
+   hardlinks map (only seen through FileInfo.Sys: not observed) *)
+Definition t_writeheader_link (ts : tst) (old new : path) : tst * out :=
+  let '(s1, r) := model_step TarFS (t_base ts) (Link old new) in
+  (mkT s1 (t_te ts) (t_rc ts), match r with OOk => ONum 1%Z | r => r end).
 
 Definition tstep (ts : tst) (o : top) : tst * out :=
   match o with
   | TOp o => t_op ts o
   | TWriteHeader p c perm => t_writeheader ts p c perm
+  | TWriteHeaderDir p perm t => t_writeheader_dir ts p perm t
+  | TWriteHeaderSym p tgt cid => t_writeheader_sym ts p tgt cid
+  | TWriteHeaderLink old new => t_writeheader_link ts old new
   end.
 
 Fixpoint trun (ts : tst) (ops : list top) : tst * list out :=
